@@ -171,6 +171,9 @@ func runRouterScenario(run *core.Run, seed int64, stallScenario bool) (tv.Trace,
 		{{Authors: abs.StrSet{P: true, S: []string{"a"}}, Kinds: abs.IntSet{P: true, S: []int64{1, 2}}}},
 		{{Since: abs.OptInt{P: true, V: 3}}},
 		{{Kinds: abs.IntSet{P: true, S: []int64{7}}}},
+		// limit bounds the stored answer only: a subscription whose filters all say limit 0 is a live subscription
+		{{Limit: abs.OptInt{P: true, V: 0}}},
+		{{Kinds: abs.IntSet{P: true, S: []int64{1}}, Limit: abs.OptInt{P: true, V: 0}}, {Authors: abs.StrSet{P: true, S: []string{"b"}}, Limit: abs.OptInt{P: true, V: 1}}},
 	}
 	problem := ""
 	var pmu sync.Mutex
